@@ -287,7 +287,8 @@ def Elem.className (e : Elem) : Str := joinWith [' '] e.classNames
 
 /-- `__setattr__`'s className branch (also reached through `_attributes['class'] = v`). -/
 def Elem.setClassName (e : Elem) (v : PyV) : Elem :=
-  { e with classNames := wordsOf (stripWordsOnly (tostr v)) }
+  -- `className = None` means no class names, not the name "None" (fix 9cd4d4b)
+  { e with classNames := wordsOf (stripWordsOnly (match v with | .none => [] | v => tostr v)) }
 
 /-- SpecialAttributesDict.__contains__ -/
 def Elem.dictContains (e : Elem) (key : String) : Bool :=
